@@ -270,7 +270,9 @@ def run(chk, replay=None):
         if lim:
             return rng.choice(sorted(x for x in lim if x) or [0])
         if name in ("alloclen", "alloc_len"):
-            return rng.choice([96, 255, 4096])
+            # never a value some signature has as its default (96, 4096, 16384 ...): a dropped argument must show;
+            # one value needs the third byte of a three-byte field
+            return min(mx, rng.choice([100, 252, 4000, 0x12000]))
         v = rng.randint(1, mx) if mx > 0 else 0
         return v
 
